@@ -19,7 +19,7 @@
     set-create <n> <type> <0|1> | set-add <n> <entry> <0|1> | set-del <n> <entry> | set-flush <n>
       | set-destroy <n> | set-list <n> | set-dump
     sk-init <proto:port>… | sk-open <pod> <0|1> <port:proto,…|-> <choice,…|-> | sk-close <pod>
-      | sk-fbind <proto:port> | sk-fclose <proto:port> | sk-dump
+      | sk-fbind <proto:port> | sk-fclose <proto:port> | sk-gc <proto:port> | sk-dump
   <port> = hostPort protocol containerPort podName podIP hostIP ("%%" = empty); <ports> = ports joined by " ; ".
 -/
 import Galaxy.Model.Netfilter
@@ -314,6 +314,10 @@ def step (st : St) (line : String) : St × String :=
   | ["sk-fclose", s] =>
     match parseSock s with
     | some s => ({ st with H := foreignClose st.H s }, "ok")
+    | none => bad
+  | ["sk-gc", s] =>
+    match parseSock s with
+    | some s => ({ st with H := finalizeOrphan st.H s }, "ok")
     | none => bad
   | ["sk-dump"] =>
     -- orphaned sockets are unreachable Go objects: a finalizer may or may not have closed them already,
